@@ -178,6 +178,91 @@ def sc_long_partition(rng, n, t, k, mode):
     return {"name": "longcut-%s-%d-%d-%d" % (mode or "drop", n, t, k), "n": n, "t": t, "steps": steps}
 
 
+def sc_miss_one_round(rng, n, t, k):
+    """one node misses the partials of exactly one round (its links are cut for that period) and then receives the
+    threshold of partials of the FOLLOWING round while its sync of the missed round is still held back (gate at
+    sync.beforePut): it can aggregate round r+2 but holds nothing of round r+1, which may only come by sync."""
+    steps = [{"op": "startall"}]
+    steps += _round_steps(0, "random", "r1", live=True) + _round_steps(10, "random", "r2", live=True)
+    v = rng.randrange(n)
+    rest = [i for i in range(n) if i != v]
+    steps.append({"op": "partition", "parts": [[v], rest]})
+    steps += _round_steps(20, "random", "cut-r3")
+    steps.append({"op": "dropall"})
+    steps.append({"op": "heal"})
+    steps.append({"op": "gate", "point": "sync.beforePut", "node": v})
+    steps += [{"op": "advance", "node": -1, "to": 30}, {"op": "deliverto", "order": "random", "node": v}]
+    steps.append({"op": "waitgate", "point": "sync.beforePut", "node": v})
+    steps.append({"op": "deliverall", "order": "random"})
+    steps.append({"op": "opengate", "point": "sync.beforePut", "node": v})
+    for r in (4, 5, 6):
+        steps += _round_steps(10 * r, "random", "after-r%d" % (r + 1))
+        steps += [{"op": "advance", "node": -1, "to": 10 * r + 4}, {"op": "deliverall", "order": "random"}]
+    steps.append({"op": "quiesce", "label": "live-after-missed-round"})
+    return {"name": "missone-%d-%d-%d" % (n, t, k), "n": n, "t": t, "steps": steps}
+
+
+def sc_restart_midround(rng, n, t, k):
+    """a node is restarted (Catchup) in the middle of round r with head r-1 and receives the partials of round r
+    before its first tick: it aggregates round r itself; the catch-up periods that follow must not make it sign
+    round r+1 before that round's time."""
+    steps = [{"op": "startall"}]
+    steps += _round_steps(0, "random", "r1", live=True) + _round_steps(10, "random", "r2", live=True)
+    v = rng.randrange(n)
+    rest = [i for i in range(n) if i != v]
+    steps.append({"op": "stop", "node": v})
+    steps += [{"op": "advance", "node": -1, "to": 20}]            # round 3: the others sign; v is down
+    hold = rng.random() < 0.5
+    if not hold:
+        steps.append({"op": "deliverall", "order": "random"})
+    steps += [{"op": "advance", "node": -1, "to": 22}]
+    steps.append({"op": "start", "node": v, "mode": "catchup"})
+    for i in rest[:t]:
+        steps.append({"op": "adv", "node": v, "kind": "valid", "as": i, "round": 3})
+    steps.append({"op": "deliverall", "order": "random"})
+    for c in (24, 26, 28):
+        steps += [{"op": "advance", "node": -1, "to": c}, {"op": "deliverall", "order": "random"}]
+    for r in (3, 4, 5):
+        steps += _round_steps(10 * r, "random", "after-r%d" % (r + 1))
+        steps += [{"op": "advance", "node": -1, "to": 10 * r + 4}, {"op": "deliverall", "order": "random"}]
+    steps.append({"op": "quiesce", "label": "live-after-midround-restart"})
+    return {"name": "restartmid-%d-%d-%d" % (n, t, k), "n": n, "t": t, "steps": steps}
+
+
+def sc_synced_then_needed(rng, n, t, k):
+    """a node falls behind by more than the partial-cache window while staying up (links cut), catches up by sync
+    after the heal, and then becomes indispensable: another member stops, so that every round needs this node's
+    partial in time.  The chain of the connected threshold must keep up with the clock."""
+    steps = [{"op": "startall"}]
+    for r in range(2):
+        steps += _round_steps(10 * r, "random", "r%d" % (r + 1), live=True)
+    v = rng.randrange(n)
+    rest = [i for i in range(n) if i != v]
+    steps.append({"op": "partition", "parts": [[v], rest]})
+    now = 10
+    for r in range(rng.randint(6, 7)):
+        now += 10
+        steps += _round_steps(now, "random", "cut")
+    steps.append({"op": "dropall"})
+    steps.append({"op": "heal"})
+    for r in range(3):
+        now += 10
+        steps += [{"op": "advance", "node": -1, "to": now}, {"op": "deliverall", "order": "random"}]
+        for c in (2, 4, 6, 8):
+            steps += [{"op": "advance", "node": -1, "to": now + c}, {"op": "deliverall", "order": "random"}]
+    # now exactly a threshold stays up, v included
+    for i in rng.sample(rest, n - t):
+        steps.append({"op": "stop", "node": i})
+    for r in range(7):
+        now += 10
+        steps += [{"op": "advance", "node": -1, "to": now}, {"op": "deliverall", "order": "random"}]
+        for c in (2, 4, 6, 8):
+            steps += [{"op": "advance", "node": -1, "to": now + c}, {"op": "deliverall", "order": "random"}]
+        if r >= 3:
+            steps.append({"op": "quiesce", "label": "live-needed-%d" % r})
+    return {"name": "syncedneeded-%d-%d-%d" % (n, t, k), "n": n, "t": t, "steps": steps}
+
+
 def sc_allbehind(rng, n, t, k):
     """every node is equally behind (the whole network was stalled: all clocks jump several periods at once), so
     nobody can be synced from: the nodes must close the gap themselves in catch-up mode, one round per catch-up
@@ -431,6 +516,18 @@ def scenarios_for(ctx, prop):
         for k in range(4 if q else 30):
             n, t = rng.choice([(3, 2), (4, 3)])
             out.append(sc_clocks(rng, n, t, k))
+    if prop in ("C03", "C01", "C05"):
+        for k in range(1 if q else 4):
+            n, t = rng.choice([(3, 2), (4, 3), (5, 3)])
+            out.append(sc_miss_one_round(rng, n, t, k))
+    if prop in ("C04", "C05"):
+        for k in range(2 if q else 6):
+            n, t = rng.choice([(3, 2), (4, 3), (5, 3)])
+            out.append(sc_restart_midround(rng, n, t, k))
+    if prop == "C05":
+        for k in range(1 if q else 5):
+            n, t = rng.choice([(4, 3), (5, 3), (5, 4)])
+            out.append(sc_synced_then_needed(rng, n, t, k))
     if prop == "C07":
         shapes = ["same", "add1", "remove1", "replace1", "tup", "add2"]
         for k, sh in enumerate(shapes if not q else rng.sample(shapes, 3)):
